@@ -207,9 +207,9 @@ Definition guard (st it : string) : result :=
 End WithTables.
 
 (* ---------- the CURRENT code ---------- *)
-Definition cur_checks_facilities : bool := false.     (* topology.py:629 iterates self.nodes only *)
-Definition cur_enforces_declared_site : bool := false. (* network_service.py:261-268: old_site is compared with itself *)
-Definition cur_connect_interface_guarded : bool := false.  (* connect_interface() does not call the guardrail *)
+Definition cur_checks_facilities : bool := true.      (* topology.py: validate() also iterates self.facilities *)
+Definition cur_enforces_declared_site : bool := true.  (* network_service.py: old_site is compared with the inferred site *)
+Definition cur_connect_interface_guarded : bool := true.   (* connect_interface() runs the guardrail *)
 
 Definition validate_cur (sl : slice) : list osite * result :=
   validate gen_tables cur_checks_facilities cur_enforces_declared_site sl.
